@@ -226,7 +226,12 @@ def check_table(m, phase, fe, cfg, report):
     # (without effective re-minimisation -- BFGS's absolute gtol in small units -- the accepted
     # gradient error rTol translates into an overshoot of a few rTol, relative)
     slack = max(1e-4, 30 * rTol) * Ts
-    eig_floor = -1e-7 * Ts ** 2
+    # the accepted point passed the test on the FINITE-DIFFERENCE Hessian at a position that is
+    # itself only accurate to the tracer tolerance: the exact smallest eigenvalue there may be
+    # negative by (third derivative) x (position error) + finite-difference rounding, about
+    # 1e-7 T^2 (model); same safety factor as the position tolerance
+    eig_model = 1e-7 * Ts ** 2
+    eig_floor = -TOL_SAFETY * eig_model
     lo_exist, hi_exist = ph.Tlo - slack, ph.Thi + slack
     # ---- sortedness, no two nodes a few ulp apart ---------------------------------------
     n += 2
@@ -255,10 +260,11 @@ def check_table(m, phase, fe, cfg, report):
             else:
                 g = m.grad(x, Ti)
                 step = float(np.linalg.norm(np.linalg.solve(H, g)))
-                tolx = (100 * rTol + 1e-7) * fs + 2 * (1.5e-8 * abs(v)) / emin
+                tolx = TOL_SAFETY * err_model(m, rTol, 1.0, v, emin)
                 # genuine minimum of ANOTHER phase, or a point in transit to it
                 (beyond_min if step <= tolx else beyond_trans).append(rec)
             continue
+        worst["eig"] = max(worst.get("eig", 0.0), -emin / eig_model)
         if emin <= eig_floor:
             report("tabulated-non-minimum",
                    "tabulated point T=%.10g fields=%s has smallest exact Hessian eigenvalue "
@@ -282,9 +288,10 @@ def check_table(m, phase, fe, cfg, report):
         soft = max(1.0, (0.02 * Ts ** 2) / max(emin, 1e-300))
         # + what BFGS with forward-difference gradients can resolve: the rounding noise of
         # the gradient, eps |V| / sqrt(eps), divided by the curvature
-        tolx = (100 * rTol + 1e-7) * fs * soft + 2 * (1.5e-8 * abs(v)) / max(emin, 1e-300)
-        worst["grad"] = max(worst["grad"], step / tolx)
-        worst["field"] = max(worst["field"], dist / tolx)
+        model = err_model(m, rTol, soft, v, emin)
+        tolx = TOL_SAFETY * model
+        worst["grad"] = max(worst["grad"], step / model)
+        worst["field"] = max(worst["field"], dist / (2 * model + step))
         if step > tolx:
             report("gradient-not-zero",
                    "tabulated point T=%.10g fields=%s is %.3g (Newton step) away from a "
@@ -402,20 +409,23 @@ def check_table(m, phase, fe, cfg, report):
             d4x = max(np.max(np.abs(_d4(ph.loc, t, hh))) for t in (Tm - 2 * hh, Tm, Tm + 2 * hh))
             d4v = max(abs(_d4(fV, t, hh)) for t in (Tm - 2 * hh, Tm, Tm + 2 * hh))
             hn = max(h, 1e-12)
-            base = (100 * rTol + 1e-7) * fs * soft + 2 * (1.5e-8 * abs(v)) / max(emin, 1e-300)
-            tolx = base + 4 * (5 / 384) * hn ** 4 * d4x
+            model = err_model(m, rTol, soft, v, emin)
+            base = TOL_SAFETY * model
+            spl = (5 / 384) * hn ** 4
+            tolx = base + TOL_SAFETY * spl * d4x
             d = float(min(np.linalg.norm(x - exact), np.linalg.norm(x + exact)
                           if m.nf == 2 else math.inf))
-            worst["interp"] = max(worst.get("interp", 0.0), d / tolx)
+            worst["interp"] = max(worst.get("interp", 0.0), d / (model + spl * d4x))
             if d > tolx:
                 report(ikey,
                        "interpolated fields at T=%.10g are %s, closed form %s: error %.3g > "
                        "%.3g" % (Tm, x.tolist(), exact.tolist(), d, tolx), dict(T=float(Tm)))
             vex = m.V(exact, Tm)
             # V is stationary at the minimum: error quadratic in the field error
-            tolv = max(1e-9, rTol) * abs(vex) + 10 * max(emin, 0.02 * Ts ** 2) * base ** 2 \
-                + 4 * (5 / 384) * hn ** 4 * d4v
-            worst["interpv"] = max(worst.get("interpv", 0.0), abs(v - vex) / tolv)
+            modelv = max(1e-9, rTol) * abs(vex) + 10 * max(emin, 0.02 * Ts ** 2) * model ** 2 \
+                + spl * d4v
+            tolv = TOL_SAFETY * modelv
+            worst["interpv"] = max(worst.get("interpv", 0.0), abs(v - vex) / modelv)
             if abs(v - vex) > tolv:
                 report(ikey if dup else "interpolation-error-veff",
                        "interpolated free energy at T=%.10g is %.15g, closed form %.15g "
@@ -470,6 +480,32 @@ def _d4(f, t, h):
     return (f(t - 2 * h) - 4 * f(t - h) + 6 * f(t) - 4 * f(t + h) + f(t + 2 * h)) / h ** 4
 
 
+# Error model of the position of a tabulated minimum (absolute, in field units):
+#   tracer tolerance  (100 rTol + 1e-7) * field scale      RK45 rtol/atol and the acceptance
+#                                                           tests, accumulated over the sweep
+#   x softness        curvature scale / smallest eigenvalue (errors grow ~1/H near a spinodal)
+#   + minimiser noise 2 eps_mach |V| / eps_fd / H           forward-difference gradient of
+#                     scipy's BFGS, eps_fd = 1.49e-8 * fieldValueVariationScale (unit-invariant)
+# TOL_SAFETY = 3 x the worst observed error/model over seeds 1..12 (quick) and the thorough
+# tier on the unchanged tree (worst observed: see evidence "worst_error_over_model").
+TOL_SAFETY = 1.0
+
+
+def err_model(m, rTol, soft, v, emin):
+    fsv = float(np.max(np.atleast_1d(m.pot.derivativeSettings.fieldValueVariationScale)))
+    noise = 2.2e-16 * abs(v) / (1.4901161193847656e-08 * fsv)
+    return (100 * rTol + 1e-7) * m.fscale * soft + 2 * noise / max(emin, 1e-300)
+
+
+def note_worst(ctx, worst):
+    cov = getattr(ctx, "cov", None)
+    if cov is None or not worst:
+        return
+    w = cov.setdefault("worst_error_over_model", {})
+    for k, v in worst.items():
+        w[k] = max(float(w.get(k, 0.0)), float(v))
+
+
 def make_reporter(fails):
     def report(key, what, extra):
         fails.append((key, what, extra))
@@ -511,6 +547,7 @@ def run_trace_case(ctx, cfg, tag):
     worst = {}
     if fe is not None:
         n, worst = check_table(m, cfg["phase"], fe, cfg, report)
+        note_worst(ctx, worst)
         for _ in range(n):
             ctx.count("direct_" + tag)
     ph = m.phases[cfg["phase"]]
@@ -679,7 +716,8 @@ def run_tc_case(ctx, cfg):
             continue
         sub = dict(cfg, phase=name, Tstart=cfg["Tn"], TMin=cfg["Wmin"], TMax=cfg["Wmax"])
         before = len(fails)
-        n, _ = check_table(m, name, fe, sub, report)
+        n, w_ = check_table(m, name, fe, sub, report)
+        note_worst(ctx, w_)
         hopped = hopped or any(f[0] == "trace-hops-phase-at-spinodal" for f in fails[before:])
         for _ in range(n):
             ctx.count("direct_tc_tables")
